@@ -437,5 +437,111 @@ def unmarshalComponentID (s : Bytes) : Option (Req × Bytes) :=
   | none => none
   | some d => Req.unmarshal d
 
+/-! ### C36: resolver errors delivered with the idle callback, and the end of the stream -/
+
+/-- A resolver error handed to the idle callback; `canceled` is `context.Canceled` (the one
+error the send loop does not end the stream for). -/
+inductive RErr where
+  | canceled
+  | other (id : Nat)
+deriving DecidableEq, Repr
+
+/-- Bus callbacks including the error list of the idle callback (`none` = a nil entry of `resErrs`).
+`ev (.idle b)` is the idle callback with an empty error list. -/
+inductive EvE where
+  | ev (e : Ev)
+  | idleErrs (b : Bool) (errs : List (Option RErr))
+deriving DecidableEq, Repr
+
+/-- The closure state including `resErr` (set once, never cleared). -/
+structure StE where
+  st : St := {}
+  resErr : Option RErr := none
+deriving DecidableEq, Repr
+
+/-- `for _, err := range resErrs { if err != nil { resErr = err; break } }`. -/
+def firstErr : List (Option RErr) → Option RErr
+  | [] => none
+  | some e :: _ => some e
+  | none :: rest => firstErr rest
+
+/-- One callback (critical section) on the extended state. -/
+def stepE (s : StE) : EvE → StE × List Msg
+  | .ev e =>
+    let r := step s.st e
+    ({ s with st := r.1 }, r.2)
+  | .idleErrs b errs =>
+    let resErr := if s.resErr.isNone then firstErr errs else s.resErr
+    let r := step s.st (.idle b)
+    (⟨r.1, resErr⟩, r.2)
+
+/-- The test at the top of the send loop: `currIdle && currResErr != nil && currResErr != context.Canceled`. -/
+def fatal (s : StE) : Option RErr :=
+  if s.st.resIdle then
+    match s.resErr with
+    | some .canceled => none
+    | some e => some e
+    | none => none
+  else none
+
+/-- The stream seen by a client when the send loop runs after every callback (a consumer that
+keeps up): the messages sent and the error the stream ends with (`none`: it has not ended). When
+the test fires, the batch queued by that same callback is not sent. -/
+def runSync (s : StE) : List EvE → List Msg × Option RErr
+  | [] => ([], none)
+  | e :: rest =>
+    let r := stepE s e
+    match fatal r.1 with
+    | some err => ([], some err)
+    | none =>
+      let r2 := runSync r.1 rest
+      (r.2 ++ r2.1, r2.2)
+
+/-! ### C36: which directive a request becomes -/
+
+/-- `(*LookupRpcServiceRequest).ToDirective`: the (service ID, server ID) of the directive. -/
+def Req.toDirective (r : Req) : Bytes × Bytes := (r.serviceId, r.serverId)
+
+/-- `RequestFromDirective`. -/
+def requestFromDirective (d : Bytes × Bytes) : Req := ⟨d.1, d.2⟩
+
+/-- `(*LookupRpcServiceRequest).Validate() == nil` = `ToDirective().Validate()`: the service ID
+must not be empty (`srpc.ErrEmptyServiceID`). -/
+def Req.validate (r : Req) : Bool := !r.serviceId.isEmpty
+
+/-- The head of `LookupRpcService` / `CallRpcService`: the optional `serverIdCb` rewrites the
+server ID or fails (`none`). -/
+def applyServerIdCb (cb : Option (Bytes → Option Bytes)) (serverId : Bytes) : Option Bytes :=
+  match cb with
+  | none => some serverId
+  | some f => f serverId
+
+/-- `LookupRpcService`: the directive handed to `AddDirective` (`none`: the callback failed and
+the call returned its error before touching the bus). The request is not validated here
+(`CallRpcService` does validate): a lookup with an empty service ID is placed as it is, and
+controllerbus does not validate directives in `AddDirective` either. -/
+def lookupPlaced (cb : Option (Bytes → Option Bytes)) (r : Req) : Option (Bytes × Bytes) :=
+  (applyServerIdCb cb r.serverId).map (fun srv => (r.serviceId, srv))
+
+/-- Outcome of the getter of `CallRpcService`. -/
+inductive CallOut where
+  | ok (serviceId serverId : Bytes)   -- invokers of exactly this lookup serve the call
+  | errDecode                         -- `UnmarshalComponentID` failed
+  | errInvalid                        -- `Validate` failed
+  | errServerId                       -- `serverIdCb` failed
+  | errNoServer                       -- no invoker: `(nil, nil, nil)` ⇒ rpcstream.ErrNoServerForComponent
+deriving DecidableEq, Repr
+
+/-- `CallRpcService`'s getter for the component ID text `cid`; `provided sid srv`: the lookup of
+(sid, srv) on the bus yields at least one invoker. -/
+def callRpcService (cb : Option (Bytes → Option Bytes)) (provided : Bytes → Bytes → Bool) (cid : Bytes) : CallOut :=
+  match unmarshalComponentID cid with
+  | none => .errDecode
+  | some (r, _) =>
+    if !r.validate then .errInvalid else
+    match applyServerIdCb cb r.serverId with
+    | none => .errServerId
+    | some srv => if provided r.serviceId srv then .ok r.serviceId srv else .errNoServer
+
 end Dispatch
 end Bifrost
